@@ -1041,6 +1041,47 @@ static void run_script(FILE* in) {
                 emit_bytes("tok", tmp, n); eol();
             }
         }
+        else if (!strcmp(op, "findsweep")) {
+            /* findsweep <lang> <seed> <count> <minchars> <maxchars>: pseudo-random tokens over the list's own
+               characters through the library's word lookup; every ACCEPTED token is logged as a Find event (the
+               specification decides whether the rule allows it), rejected ones are only counted */
+            const polyseed_lang* l = lang_by_id(tok[1]);
+            if (l) {
+                static uint8_t chars[4096][5]; int nchars = 0;
+                for (int j = 0; j < POLYSEED_LANG_SIZE; ++j) {
+                    const uint8_t* w = (const uint8_t*)l->words[j];
+                    for (size_t k = 0; w[k]; ) {
+                        size_t cl = w[k] < 0x80 ? 1 : (w[k] >> 5) == 6 ? 2 : (w[k] >> 4) == 14 ? 3 : 4, q = 0;
+                        uint8_t c[5] = {0};
+                        for (; q < cl && w[k + q]; ++q) c[q] = w[k + q];
+                        k += q;
+                        int f = 0; for (; f < nchars; ++f) if (!memcmp(chars[f], c, 5)) break;
+                        if (f == nchars && nchars < 4096) memcpy(chars[nchars++], c, 5);
+                    }
+                }
+                uint64_t x = strtoull(tok[2], NULL, 10) * 0x9E3779B97F4A7C15ull + 0x1234567ull;
+                long count = strtol(tok[3], NULL, 10), done = 0, hits = 0;
+                int lo = atoi(tok[4]), hi = atoi(tok[5]);
+                char t[64];
+                for (; done < count && hits < 4000; ++done) {
+                    x ^= x >> 12; x ^= x << 25; x ^= x >> 27; uint64_t r = x * 0x2545F4914F6CDD1Dull;
+                    int nc = lo + (int)((r >> 56) % (unsigned)(hi - lo + 1)); size_t n = 0;
+                    for (int q = 0; q < nc && n < 56; ++q) {
+                        x ^= x >> 12; x ^= x << 25; x ^= x >> 27; r = x * 0x2545F4914F6CDD1Dull;
+                        const uint8_t* c = chars[(r >> 33) % (unsigned)nchars];
+                        for (int b = 0; c[b]; ++b) t[n++] = (char)c[b];
+                    }
+                    t[n] = 0;
+                    int ret = polyseed_lang_find_word(l, t);
+                    if (ret >= 0) {
+                        ++hits;
+                        fprintf(out, "{\"e\":\"Find\",\"lang\":\"%s\",\"ret\":%d", tok[1], ret);
+                        emit_bytes("tok", (const uint8_t*)t, n); eol();
+                    }
+                }
+                fprintf(out, "{\"e\":\"Sweep\",\"lang\":\"%s\",\"n\":%ld,\"hits\":%ld,\"alphabet\":%d", tok[1], done, hits, nchars); eol();
+            }
+        }
         else if (!strcmp(op, "mul2all")) {
             fprintf(out, "{\"e\":\"Mul2\",\"v\":[");
             for (unsigned x = 0; x < 2048; ++x) fprintf(out, x ? ",%u" : "%u", (unsigned)gf_elem_mul2(x));
